@@ -8,7 +8,7 @@ fams = []
 def fam(name, entry, tier='quick', witness=False, w=1, **kw):
     defs = ['%s=%s' % (k, v) for k, v in kw.items()] + (['WITNESS=1'] if witness else [])
     fams.append(Family(name + ('-witness' if witness else ''), 'h_c17.c', entry, defs,
-                       opts={'exact_roots': 1, 'fp_traps': 1, 'time_limit': 420 if tier == 'quick' else 2400, 'query_timeout_ms': 60000},
+                       opts={'exact_roots': 1, 'fp_traps': 1, 'time_limit': 900 if tier == 'quick' else 2400, 'query_timeout_ms': 60000},
                        tier=tier, witness=witness, weight=w, validate=2))
 for k in (1, 2, 3, 4):
     fam('add-k%d' % k, 'h_add', K=k, w=k)
